@@ -170,6 +170,9 @@ LITERALS = [
     ('dotted name under group', 'g\n  h.a int = 4', 'g.h.a', 4, None, (I, 32, False)), ('child of a typed node', 'f str = x\n  c int = 1', 'f.c', 1, None, (I, 32, False)),
     ('name with hyphen and digits', 'a-1_b int = 4', 'a-1_b', 4, None, (I, 32, False)), ('trailing comment after unit', 'a float = 1 m # c', 'a', 1.0, 'm', (F, 64, None)),
     ('comment line between', 'g\n  # c\n\n  a int = 2', 'g.a', 2, None, (I, 32, False)), ('de-indent by two levels', 'g\n  h\n    a int = 1\nb int = 2', 'b', 2, None, (I, 32, False)),
+    ('node written twice in a re-opened group: last literal zero', 'run\n  retries int = 3\n  offset int = 5 mm\nrun\n  retries int = 0', 'run.retries', 0, None, (I, 32, False)),
+    ('node written twice with a unit: last literal zero', 'run\n  offset int = 5 mm\nrun\n  offset int = 0 mm', 'run.offset', 0, 'mm', (I, 32, False)),
+    ('float written twice: last literal zero', 'a float = 2.5 m\na float = 0 m', 'a', 0.0, 'm', (F, 64, None)),
     ('none for an array node', 'a int[3] = none', 'a', None, None, (I, 32, False)), ('none for a matrix node with unit', 'a float32[2,2] = none cm', 'a', None, 'cm', (F, 32, None)),
     ('comment containing a minus after a unit', 'a float = 3 km  # outer - inner', 'a', 3.0, 'km', (F, 64, None)), ('comment containing a slash after a unit', 'a float = 3 km # a / b', 'a', 3.0, 'km', (F, 64, None)),
     ('comment containing a star after a unit', 'a float = 3 km # 2 * x', 'a', 3.0, 'km', (F, 64, None)), ('comment containing a plus, no unit', 'a int = 3 # x + y', 'a', 3, None, (I, 32, False)),
